@@ -868,6 +868,17 @@ func doCheck(prop *Property, tier string, seed uint64, runsOverride int, only st
 		}
 	}
 
+	// every listed finding of this property is named, also those this run did not happen to reach
+	for i := range findings {
+		f := &findings[i]
+		if f.Property != prop.ID || knownSeen[f.Class+"|"+f.Fingerprint] {
+			continue
+		}
+		if only != "" {
+			continue // a single harness was selected: the finding may belong to another one
+		}
+		fmt.Printf("KNOWN-FINDING: property=%s class=%s fingerprint=%q %s (listed in known_findings.txt; not reached by the runs of this invocation)\n", f.Property, f.Class, f.Fingerprint, f.What)
+	}
 	if len(infraMsgs) > 0 {
 		if exit != 1 {
 			infra("%s", infraMsgs[0])
